@@ -59,6 +59,8 @@ func blockAlphabet(c Cfg) []Op {
 		{K: "merge", Dev: true},
 		{K: "batch", Sub: []Op{{K: "put", Key: "a", VC: "S"}, {K: "put", Key: "b", VC: "B", Arg: 3}}, Dev: true},
 		{K: "batch", Sub: []Op{{K: "put", Key: "a", VC: "S"}, {K: "put", Key: "b", VC: "M"}}, Dev: true}, // a multi-block value as a non-first staged record
+		// a staged record that ends 3 bytes before a block end (11 = 3 + the 8 further header bytes of a batch id) with records behind it in the same flush
+		{K: "batch", Sub: []Op{{K: "put", Key: "b", VC: "B", Arg: 11}, {K: "put", Key: "a", VC: "S"}}, Dev: true},
 	}
 	for _, delta := range []int{9, 8, 7, 6, 1, 0, -1} {
 		a = append(a, Op{K: "put", Key: "b", VC: "B", Arg: delta, Dev: true})
